@@ -32,7 +32,8 @@ Proof.
   intros Hf Hr Ha Hsmall Hlen sl s1 r. subst s1 r. cbn [on_input fst].
   rewrite bw_sleep_add_exact by (auto; pose proof (zlen_nonneg (cdata c)); lia).
   fold sl. unfold bw_loop, bw_split_test.
-  destruct Hr as [Hr0 Hr1].
+  destruct Hr as [Hr0 Hr1]. rewrite maxint_cent.
+  replace ((0 <=? rate) && (rate <=? 92233720368547758)) with true by (unfold two63 in *; lia). cbn [andb].
   rewrite wrap64_id by (unfold two63 in *; lia).
   replace (rate * 100 <? zlen (cdata c)) with false by lia.
   destruct fuel as [|[|f]]; try lia.
@@ -53,7 +54,8 @@ Theorem bw_instalment rate now (p : chunk) sl :
          (KBwLoop (mkChunk (slice_from (cdata p) (rate * 100)) (cts p)) (sl - bw_instalment_ns)) /\
   zlen (slice_to (cdata p) (rate * 100)) = rate * 100.
 Proof.
-  intros [Hr0 Hr1] Hbig. unfold bw_loop, bw_split_test.
+  intros [Hr0 Hr1] Hbig. unfold bw_loop, bw_split_test. rewrite maxint_cent.
+  replace ((0 <=? rate) && (rate <=? 92233720368547758)) with true by (unfold two63 in *; lia). cbn [andb].
   rewrite wrap64_id by (unfold two63 in *; lia).
   replace (rate * 100 <? zlen (cdata p)) with true by lia.
   split; [reflexivity|]. split; [reflexivity|]. split.
